@@ -6,10 +6,10 @@ import Upa.Props.C12
 import Upa.Props.C14
 /-
   C01 — URL parsing conforms to the WHATWG URL Standard, with and without a base.
-  Target statement (not yet proved as a whole, see DESIGN.md §4/C01):
-    ∀ idna e units base, UnitsOk e units → Impl.parse idna e units base = Spec.apiParse idna e units base
-  where `Impl.parse` is the code-shaped block parser and `Spec.apiParse` the Standard's state machine.
-  The kernel checks the pieces below; the remaining blocks are tied three-way by correspondence.
+  The statement as a whole,
+    ∀ idna e units base, IdnaOk idna → UnitsOk e units → Impl.parse idna e units base = Spec.apiParse idna e units base
+  where `Impl.parse` is the code-shaped block parser and `Spec.apiParse` the Standard's state machine, is
+  `C01_parse_conforms` in Props/C01b.lean.  This file holds the leaf pieces it is assembled from.
 -/
 namespace Upa.Props
 open Upa
